@@ -148,6 +148,32 @@ def _others(args):
         finally:
             plt.close = real_close
             real_close('all')
+        # a save (either format) followed directly by another plot, with no close of ours in between:
+        # the later figure holds its own marker only
+        fp2, fn2 = pts[1]
+        for fmt in ('png', 'pdf'):
+            for nm, call_ in (('save_phaseDiagramPlot', lambda p: o.save_phaseDiagramPlot(p, saveFormat=fmt)),
+                              ('save_uverskyPlot', lambda p: o.save_uverskyPlot(p, saveFormat=fmt)),
+                              ('plots.save_single_phasePlot', lambda p: plots.save_single_phasePlot(fp, fn, p, saveFormat=fmt)),
+                              ('plots.save_single_uverskyPlot', lambda p: plots.save_single_uverskyPlot(uh, mnc, p, saveFormat=fmt)),
+                              ('plots.save_multiple_phasePlot', lambda p: plots.save_multiple_phasePlot([fp, fp2], [fn, fn2], p, ['a', 'b'], saveFormat=fmt)),
+                              ('plots.save_multiple_phasePlot2', lambda p: plots.save_multiple_phasePlot2([o, o2], p, ['a', 'b'], saveFormat=fmt)),
+                              ('plots.save_multiple_uverskyPlot', lambda p: plots.save_multiple_uverskyPlot([uh, uh], [mnc, mnc], p, ['a', 'b'], saveFormat=fmt)),
+                              ('plots.save_multiple_uverskyPlot2', lambda p: plots.save_multiple_uverskyPlot2([o, o2], p, ['a', 'b'], saveFormat=fmt))):
+                path = os.path.join(work, 'seq_%s_%d.%s' % (nm.replace('.', '_'), os.getpid(), fmt))
+                st_, r_ = call(lambda: call_(path), seconds=60)
+                for q in (path, path + '.' + fmt):
+                    if os.path.exists(q):
+                        os.unlink(q)
+                if st_ != 'ok':
+                    problems.append({nm: 'save as %s failed' % fmt, 'result': [st_, repr(r_)[:120]]})
+                    plt.close('all')
+                    continue
+                r = o2.show_phaseDiagramPlot(getFig=True)
+                i = _fig_info(r) if r is not None else None
+                if i is None or i['offsets'] != [(fp2, fn2)] or len(i['patches']) != 5:
+                    problems.append({'after ' + nm + ' (' + fmt + ')': 'the next phase diagram does not hold exactly its own marker',
+                                     'figure': i, 'expected_marker': (fp2, fn2)})
         # linear plots
         w = min(5, len(seq))
         for nm, show, getter in (('NCPR', o.show_linearNCPR, o.get_linear_NCPR), ('FCR', o.show_linearFCR, o.get_linear_FCR),
